@@ -16,7 +16,7 @@ Driver for property C03.  One operation per line (tokens separated by single spa
       -> `ok serial=<n> next=<n> raw=<hex> hdr=<hex> pad=<hex> body=<hex> ufds=<attr> wf=<0|1|->`   (wf: Spec.decodeMsg accepts rawMessage; - when longer than 262144)
        | `err kind=<ExceptionName> next=<n>`
   parse <byteshex> <fds>      parseMessage; fds = N | - (empty list) | comma separated integers
-      -> `ok type=<n> serial=<n> er=<T|F> as=<T|F> path=<attr> … unix_fds=<attr> hdr=<n> pad=<hex> body=<hex>`
+      -> `ok type=<n> serial=<n> er=<T|F> as=<T|F> of=<otherFlags> path=<attr> … unix_fds=<attr> hdr=<n> pad=<hex> body=<hex>`
        | `err kind=<ExceptionName>`
   remarshal <byteshex> <fds> <sender>      what the bus does with a received message: parseMessage, `msg.sender = sender`,
       `msg.endian = raw[0]`, `msg._marshal(False, rawBody=msg.rawBody)`       (sender = s<strhex>)
@@ -233,7 +233,7 @@ def parseStep (toks : List String) : String :=
       | .error e => "err kind=" ++ pyErrName e ++ " gen=" ++ genUnmarshalBit raw fds ++ via
       | .ok m =>
         "ok type=" ++ toString (T.messageType m.cls) ++ " serial=" ++ toString m.serial ++
-        " er=" ++ tf m.expectReply ++ " as=" ++ tf m.autoStart ++
+        " er=" ++ tf m.expectReply ++ " as=" ++ tf m.autoStart ++ " of=" ++ toString m.otherFlags ++
         String.join (attrNames.map fun (a, n) => " " ++ n ++ "=" ++ attrStr (m.attrs a)) ++
         " hdr=" ++ toString m.rawHeader.length ++ " pad=" ++ bytesToHex m.rawPadding ++
         " body=" ++ bytesToHex m.rawBody ++ " gen=" ++ genUnmarshalBit raw fds ++ via
